@@ -106,7 +106,7 @@ pub fn mutate(rng: &mut Rng, mut b: Vec<u8>) -> Vec<u8> {
 pub fn grammar(rng: &mut Rng) -> Vec<u8> {
     let response = rng.below(4) != 0;
     let flags = if response { 0x8400 } else { 0 };
-    let kind = rng.below(12);
+    let kind = rng.below(14);
     match kind {
         0 => {
             // header id bytes form a pointer, question name points into the header
@@ -246,6 +246,43 @@ pub fn grammar(rng: &mut Rng) -> Vec<u8> {
             v.extend_from_slice(&[0, 12, 0, 1, 0, 0, 0, 120, 0, 2, 0xC0, start as u8]);
             v
         }
+        11 | 12 => {
+            // a random functional graph of compression pointers: k two-byte slots (inside the RDATA of a TXT record or
+            // in front of a question), each pointing at any slot (backwards, forwards, itself), at a label or at the root;
+            // the name that is decoded starts with a pointer to one of the slots. Covers chains whose later hops point
+            // at or above an earlier target.
+            let k = 2 + rng.below(5) as usize;
+            let in_rdata = rng.bool();
+            let mut v = if in_rdata { hdr(0x8400, 0, 2, 0, 0) } else { hdr(flags, 1, 0, 0, 0) };
+            if in_rdata {
+                v.extend_from_slice(&[1, b'a', 0]);
+                v.extend_from_slice(&[0, 16, 0, 1, 0, 0, 0, 120, 0, (2 * k + 3) as u8]);
+            }
+            let base = v.len();
+            let label_at = base + 2 * k; // [1 'x' 0] follows the slots
+            for _ in 0..k {
+                let t = match rng.below(k as u64 + 2) as usize {
+                    i if i < k => base + 2 * i,
+                    i if i == k => label_at,
+                    _ => label_at + 2,
+                };
+                v.push(0xC0 | (t >> 8) as u8);
+                v.push(t as u8);
+            }
+            v.extend_from_slice(&[1, b'x', 0]);
+            let start = base + 2 * rng.below(k as u64) as usize;
+            if rng.below(3) == 0 {
+                v.extend_from_slice(&[1, b'y']);
+            }
+            v.push(0xC0 | (start >> 8) as u8);
+            v.push(start as u8);
+            if in_rdata {
+                v.extend_from_slice(&[0, 12, 0, 1, 0, 0, 0, 120, 0, 2, 0xC0, start as u8]);
+            } else {
+                v.extend_from_slice(&[0, 12, 0, 1]);
+            }
+            v
+        }
         _ => {
             let n = rng.below(64) as usize;
             rng.bytes(n)
@@ -268,7 +305,15 @@ pub fn hostile_content(rng: &mut Rng, ty: &str, host: &str) -> Msg {
             // label ending in a backslash: merges with the next label when re-encoded from its string form
             let mut first = vec![b'w'; 20 + rng.below(43) as usize];
             first.push(b'\\');
-            let inst = mk_inst(first);
+            let mut l = vec![first];
+            if rng.bool() {
+                // ... and the next label starts with multi-byte characters, so that byte 63 of the merged label can fall
+                // inside a character
+                let ch = ["é", "漢", "😀"][rng.below(3) as usize];
+                l.push(format!("{}x", ch.repeat(1 + rng.below(8) as usize)).into_bytes());
+            }
+            l.extend(tyn.0.iter().cloned());
+            let inst = Name(l);
             m.answers.push(Rec::ptr(&tyn, &inst, 120));
         }
         1 => {
